@@ -164,6 +164,13 @@ impl<'tcx> Cx<'tcx> {
                 if let Ok(si) = s.try_to_scalar_int() {
                     return Some(self.scalar_json(si, ty));
                 }
+                // a pointer to a static item
+                if let mir::interpret::Scalar::Ptr(p, _) = s {
+                    let (prov, _off) = p.prov_and_relative_offset();
+                    if let Some(mir::interpret::GlobalAlloc::Static(def)) = tcx.try_get_global_alloc(prov.alloc_id()) {
+                        return Some(Obj::new().s("static", &self.path(def)).end());
+                    }
+                }
                 // pointer scalars: &[u8; N] or &T to a static allocation
                 if let ty::Ref(_, inner, _) = ty.kind() {
                     if let ty::Array(elem, len) = inner.kind() {
@@ -708,6 +715,23 @@ impl<'tcx> Cx<'tcx> {
                         .raw("unwind", &self.unwind_json(unwind))
                         .n("line", self.line(*fn_span))
                         .b("expn", expn || fn_span.from_expansion());
+                    if expn || fn_span.from_expansion() {
+                        // outermost macro this call was expanded from (e.g. `info_span`, `emit`, `format_args`)
+                        let mut sp = t.source_info.span;
+                        let mut names: Vec<String> = Vec::new();
+                        let mut guard = 0;
+                        while sp.from_expansion() && guard < 16 {
+                            let ed = sp.ctxt().outer_expn_data();
+                            if let rustc_span::ExpnKind::Macro(_, name) = ed.kind {
+                                names.push(name.to_string());
+                            }
+                            sp = ed.call_site;
+                            guard += 1;
+                        }
+                        if !names.is_empty() {
+                            o = o.raw("macros", &arr(names.iter().map(|n| esc(n))));
+                        }
+                    }
                     if let Some(t) = target {
                         o = o.n("t", bbn(*t));
                     }
